@@ -312,7 +312,7 @@ def nvOp (loc : List Nat) (ps : List Nat) : GOp Nat Int :=
     unitary := fun _ => identity (2 ^ loc.length), grad := fun _ => [] }
 def nvCirc : Circ Nat Int := ⟨[2, 2, 2], 2, [(0, nvOp [2, 0] [7, 8]), (0, nvOp [1] []), (1, nvOp [1, 2] [9])]⟩
 
-theorem nvCirc_wf : nvCirc.WF := by
+private theorem nvCirc_wf : nvCirc.WF := by
   refine ⟨?_, ?_⟩
   · intro e he
     simp only [nvCirc, List.mem_cons, List.not_mem_nil, or_false] at he
@@ -320,7 +320,7 @@ theorem nvCirc_wf : nvCirc.WF := by
   · simp only [nvCirc, nvOp]
     decide
 
-theorem nvCirc_opsOK : nvCirc.OpsOK := by
+private theorem nvCirc_opsOK : nvCirc.OpsOK := by
   refine ⟨by decide, ?_⟩
   intro e he
   simp only [nvCirc, List.mem_cons, List.not_mem_nil, or_false] at he
@@ -350,6 +350,7 @@ example : nvCircU.OpsOK ∧
     rw [matmul_eq_ok (m := 2) (k := 2) (n := 2) rfl rfl]
     congr 1
 
+example : nvCirc.WF := nvCirc_wf
 example : nvCirc.params = [7, 8, 9] := by decide
 example : (2 : Nat) < nvCirc.params.length := by decide
 example : ∃ c', nvCirc.setParams [1, 2, 3] = .ok c' :=
